@@ -1,12 +1,16 @@
 #!/bin/sh
 # tools/seed_eval.sh <seed dir with patch.diff+demo.py> <check ids...>
-# applies the patch to /repo, runs the checks, undoes the patch
+# applies the patch to a scratch copy of /repo/yalafi (outside /repo and
+# /verif, removed afterwards) and runs the checks against that copy
+# (YALAFI_REPO), with separate evidence / replay directories -- /repo itself
+# is not touched, so other runs are not disturbed
 d=$1; shift
-git -C /repo apply --check "$d/patch.diff" || { echo "PATCH DOES NOT APPLY"; exit 9; }
-git -C /repo apply "$d/patch.diff"
+t=$(mktemp -d /tmp/seedtree_XXXX)
+cp -r /repo/yalafi "$t/yalafi"
+( cd "$t" && git apply "$d/patch.diff" ) || { echo "PATCH DOES NOT APPLY"; rm -rf "$t"; exit 9; }
 for c in "$@"; do
-  PYVC_EVIDENCE_DIR=/tmp/seed_evidence PYVC_REPLAY_DIR=/tmp/seed_replays /verif/check $c > /tmp/seed_eval_$c.log 2>&1; rc=$?
+  YALAFI_REPO=$t PYVC_EVIDENCE_DIR=/tmp/seed_evidence PYVC_REPLAY_DIR=/tmp/seed_replays /verif/check $c > /tmp/seed_eval_$c.log 2>&1; rc=$?
   echo "check $c exit=$rc: $(grep -c '^VIOLATION' /tmp/seed_eval_$c.log) violations; $(grep '^VIOLATION' /tmp/seed_eval_$c.log | head -2 | sed 's/replay=[^ ]* //' | cut -c1-230)"
   grep "^UNDECIDED\|^BROKEN" /tmp/seed_eval_$c.log | head -2 | cut -c1-200
 done
-git -C /repo checkout -- .
+rm -rf "$t"
